@@ -1,9 +1,21 @@
 """Model of the graph searches in eval_structure/breadth_first_searches.py (shared by C01, C03, C12, C13, C14).
 
-For every function that expands `direct_successor_nodes` / `direct_predecessor_nodes` the model records the worklist, the
-visited set, the neighbour loop, and every *event* inside the neighbour loop (push onto the worklist, record of a result pair,
-visited-mark) together with the propositional guard under which it happens.  Atoms are normalised so that rules can ask for
-implications such as  guard(push) -> pushed in OWN or pushed in EXC.
+The model is built on a *normalised inline view* of every public search function (private helpers, also those of neighbouring
+modules, are substituted; graph methods and the public search functions themselves stay calls - they are the vocabulary of the
+rules; aliases left behind by the substitution are removed so that every set has one name).  It records
+
+  * the outer iteration over nodes to examine: a worklist loop `while W: n = W.pop()` or - the degenerate worklist to which
+    nothing is ever pushed - `for n in reversed(W)` / `for n in W` / a comprehension generator,
+  * the neighbour iteration(s) over `graph.direct_successor_nodes(n)` / `direct_predecessor_nodes(n)`: a `for` statement or a
+    comprehension generator, directly over the call, over a variable holding it, or over a filtered copy of it,
+  * every *event* (push onto the worklist, record of a result, visited-mark) in all its spellings (`x.append(e)`,
+    `x.extend(<generator>)`, `x += [...]`, `x.add(e)`, `x |= {...}`, `return [e for ...]`) together with the propositional
+    guard under which it happens (path conditions, comprehension filters, filters of a filtered neighbour list, boolean
+    helpers and boolean locals expanded),
+  * the provenance of the node sets the guards talk about: sub-tree of one filter parameter, accumulated sub-trees of the
+    elements of a set parameter, identifiers of the parent-module filters.
+
+Atoms are normalised so that rules can ask for implications such as  guard(push) -> pushed in OWN or pushed in EXC.
 """
 
 from __future__ import annotations
@@ -12,9 +24,10 @@ import ast
 from dataclasses import dataclass, field
 
 from core.guards import Formula, atom, atoms_of, conds_formula, f_and, f_not, f_or, implies, show, to_formula
-from core.loader import AnalysisError, FuncInfo, Repo, ancestors, calls_in, norm, own_nodes, parent
+from core.inline_stmt import Inliner
+from core.loader import AnalysisError, FuncInfo, Repo, ancestors, calls_in, norm, own_nodes, parent, set_parents
 
-from .common import cfg_of, conds, dotted, guard_formula, is_attr_call, stmt_of, where
+from .common import bool_inliner, cfg_of, conds, dotted, guard_formula, is_attr_call, stmt_of, types_of, where
 from .tables import SEARCHES
 
 SUCC = "direct_successor_nodes"
@@ -22,159 +35,1023 @@ PRED = "direct_predecessor_nodes"
 HIER = "parent_child_relationship"
 SUBMODULES = "get_all_submodules_of"
 
+NODE_ATTR = "identifier"  # ModuleFilter.identifier: the graph node a filter names (public API)
+PARENT_FLAG = "identifier_is_parent_module"  # ModuleFilter: 'sub modules of' filter (public API)
+
+_WRAPPERS = {"list", "sorted", "tuple", "reversed", "iter", "set", "frozenset"}
+_ADDERS = {"append", "add", "appendleft", "insert", "extend", "update", "extendleft"}
+_COMPS = (ast.ListComp, ast.SetComp, ast.GeneratorExp)
+
+
+# --------------------------------------------------------------------------- model
+
 
 @dataclass
 class Event:
     kind: str  # push | record | mark
-    call: ast.Call
-    what: str  # variable pushed / marked, or normalised recorded expression
+    call: ast.AST  # the mutating node: ast.Call (append/extend/add/update/insert), ast.AugAssign (`+=`, `|=`), ast.Return / ast.Assign (comprehension result)
+    what: str  # normalised element expression (variable pushed / marked, recorded expression)
     guard: Formula
     guard_text: str
     in_neighbour_loop: bool
+    elt: ast.AST | None = None  # element expression node
+    nvar: str | None = None  # neighbour variable of the neighbour iteration the event sits in
+    receiver: str = ""
+
+
+@dataclass
+class NeighbourIter:
+    node: ast.AST  # ast.For or a comprehension
+    gen: int | None  # generator index for comprehensions
+    var: str
+    extra: list  # [(expr, polarity)] filters of a filtered neighbour list, already renamed to `var`
+
+
+@dataclass
+class SetOp:
+    kind: str  # add | remove
+    var: str  # set variable
+    what: str  # normalised element
+    node: ast.AST
+    guard: Formula
+
+
+@dataclass
+class SubtreeSite:
+    """One `get_all_submodules_of(graph, x)` call and where its result goes."""
+
+    call: ast.Call
+    arg: str  # x
+    param: str | None  # x is this filter parameter ...
+    collection: str | None  # ... or ranges over this collection parameter
+    implicit_skips: list[str]  # elements removed from the collection before iterating (`P - {s}`)
+    target: str | None  # variable receiving / accumulating the result (None: used inline)
+    assigned: bool  # `target = get_all_submodules_of(..)` (exactly the sub-tree) as opposed to accumulated into target
+    loop: ast.AST | None  # the For / comprehension binding x
+    guard: Formula | None = None
 
 
 @dataclass
 class SearchModel:
-    fi: FuncInfo
+    fi: FuncInfo  # normalised inline view of the public search function (fi.base = the function as written)
     direction: str  # succ | pred
     graph: str
     worklist: str
     popped: str
     visited: str | None
-    loop: ast.While
-    neighbour_loop: ast.For
+    loop: ast.AST  # ast.While | ast.For (statement holding the comprehension for comprehension searches)
+    neighbour_loop: ast.AST
     neighbour_var: str
     neighbour_call: ast.Call
     hier_calls: list[ast.Call]
     hier_atom: str | None
     events: list[Event] = field(default_factory=list)
     result_vars: set[str] = field(default_factory=set)
-    submodule_sets: dict[str, str] = field(default_factory=dict)  # var -> param it is the subtree of (direct assignment)
-    accumulated_sets: dict[str, str] = field(default_factory=dict)  # var -> param (set) whose elements' subtrees it accumulates
+    submodule_sets: dict[str, str] = field(default_factory=dict)  # var -> filter parameter it is the sub-tree of
+    accumulated_sets: dict[str, str] = field(default_factory=dict)  # var -> collection parameter whose elements' sub-trees it accumulates
     role: str = ""  # explicit | other | submodules
+    # ---- additions of the generalised model
+    base: FuncInfo | None = None
+    outer_kind: str = "while"  # while | for | comp
+    neighbour_iters: list[NeighbourIter] = field(default_factory=list)
+    visited_sets: list[str] = field(default_factory=list)
+    worklist_sources: list[str] = field(default_factory=list)  # sets / node expressions the worklist is initialised from
+    worklist_inits: list[ast.stmt] = field(default_factory=list)
+    other_expansions: list[ast.Call] = field(default_factory=list)  # neighbour lookups outside the node loop
+    subtree_sites: list[SubtreeSite] = field(default_factory=list)
+    parent_id_sets: dict[str, list[str]] = field(default_factory=dict)  # var -> filter params whose parent-module identifiers it holds
+    set_ops: list[SetOp] = field(default_factory=list)  # add / remove / discard of single nodes on the node sets
+    filter_params: list[str] = field(default_factory=list)  # parameters used as one ModuleFilter
+    collection_params: list[str] = field(default_factory=list)  # parameters used as a collection of ModuleFilters
+    subject_param: str | None = None
+    object_param: str | None = None
+    subst: object = None  # substitution used for the guards (boolean locals, boolean helpers, canonical hierarchy atom)
+
+    def hier(self, nvar: str | None = None) -> Formula:
+        """Canonical atom 'the edge between the current node and the neighbour is a hierarchy edge' (correctly oriented)."""
+        nv = nvar or self.neighbour_var
+        a, b = (self.popped, nv) if self.direction == "succ" else (nv, self.popped)
+        return atom(f"bool({self.graph}.{HIER}({a}, {b}))")
+
+    def guard_of(self, node: ast.AST, extra: list | None = None) -> Formula:
+        return conds_formula(list(conds(self.fi, node)) + list(extra or []), self.subst)
 
 
-def _hier_formula(e: ast.expr, graph: str) -> str | None:
-    if isinstance(e, ast.Call) and isinstance(e.func, ast.Attribute) and e.func.attr == HIER and dotted(e.func.value) == graph:
-        return f"bool({norm(e)})"
+# --------------------------------------------------------------------------- view
+
+
+class ViewInfo(FuncInfo):
+    """FuncInfo of a normalised view: same qualname as the function it shows, but a distinct identity for the caches."""
+
+    @property
+    def fq(self) -> str:  # type: ignore[override]
+        return f"{self.module.name}::{self.qualname}~search"
+
+    __hash__ = FuncInfo.__hash__
+    __eq__ = FuncInfo.__eq__
+
+
+def _allow(caller: FuncInfo, callee: FuncInfo) -> bool:
+    """What is substituted into the view: module-level helpers. Methods (graph accessors, filter properties) and the public
+    search functions are the vocabulary of the rules and stay calls."""
+    if callee.cls is not None or callee.outer is not None:
+        return False
+    if callee.module.name == SEARCHES and not callee.name.startswith("_"):
+        return False
+    return True
+
+
+def _ordered_names(fn: ast.AST) -> list[ast.Name]:
+    out: list[ast.Name] = []
+
+    def visit(n: ast.AST) -> None:
+        if isinstance(n, ast.Name):
+            out.append(n)
+        for c in ast.iter_child_nodes(n):
+            visit(c)
+
+    for s in fn.body:
+        visit(s)
+    return out
+
+
+def _blocks(fn: ast.AST):
+    for n in ast.walk(fn):
+        for fld in ("body", "orelse", "finalbody"):
+            blk = getattr(n, fld, None)
+            if isinstance(blk, list) and blk and isinstance(blk[0], ast.stmt):
+                yield blk
+        if isinstance(n, ast.Try):
+            for h in n.handlers:
+                yield h.body
+
+
+def _eliminate_aliases(fn: ast.AST, params: set[str]) -> None:
+    """`x = y` where y is a local that is never used afterwards and x was never used before: y is renamed to x and the statement
+    dropped (the residue of `x = helper(..)` whose helper ended in `return y`)."""
+    for _ in range(50):
+        names = _ordered_names(fn)
+        pos = {id(n): i for i, n in enumerate(names)}
+        done = False
+        for blk in _blocks(fn):
+            for st in blk:
+                tgt = val = None
+                if isinstance(st, ast.Assign) and len(st.targets) == 1:
+                    tgt, val = st.targets[0], st.value
+                elif isinstance(st, ast.AnnAssign) and st.value is not None:
+                    tgt, val = st.target, st.value
+                if not (isinstance(tgt, ast.Name) and isinstance(val, ast.Name)):
+                    continue
+                x, y = tgt.id, val.id
+                if x == y or y in params:
+                    continue
+                if any(n.id == y and pos[id(n)] > pos[id(val)] for n in names):
+                    continue
+                if any(n.id == x and pos[id(n)] < min(pos[id(tgt)], pos[id(val)]) for n in names):
+                    continue
+                if not any(n.id == y and isinstance(n.ctx, ast.Store) for n in names):
+                    continue
+                for n in names:
+                    if n.id == y:
+                        n.id = x
+                for a in ast.walk(fn):
+                    if isinstance(a, ast.ExceptHandler) and a.name == y:
+                        a.name = x
+                blk.remove(st)
+                if not blk:
+                    blk.append(ast.copy_location(ast.Pass(), st))
+                done = True
+                break
+            if done:
+                break
+        if not done:
+            return
+
+
+def _negated(e: ast.expr) -> ast.expr:
+    if isinstance(e, ast.UnaryOp) and isinstance(e.op, ast.Not):
+        return e.operand
+    if isinstance(e, ast.Compare) and len(e.ops) == 1 and isinstance(e.ops[0], (ast.In, ast.NotIn, ast.Is, ast.IsNot, ast.Eq, ast.NotEq)):
+        flip = {ast.In: ast.NotIn, ast.NotIn: ast.In, ast.Is: ast.IsNot, ast.IsNot: ast.Is, ast.Eq: ast.NotEq, ast.NotEq: ast.Eq}[type(e.ops[0])]
+        new = ast.copy_location(ast.Compare(left=e.left, ops=[flip()], comparators=e.comparators), e)
+    else:
+        new = ast.copy_location(ast.UnaryOp(op=ast.Not(), operand=e), e)
+    if hasattr(e, "_src"):
+        new._src = e._src  # type: ignore[attr-defined]
+    return new
+
+
+def _conjuncts(t: ast.expr) -> list[ast.expr]:
+    if isinstance(t, ast.BoolOp) and isinstance(t.op, ast.And):
+        return [c for v in t.values for c in _conjuncts(v)]
+    if isinstance(t, ast.UnaryOp) and isinstance(t.op, ast.Not) and isinstance(t.operand, ast.BoolOp) and isinstance(t.operand.op, ast.Or):
+        return [c for v in t.operand.values for c in _conjuncts(_negated(v))]
+    return [t]
+
+
+def _disjuncts(t: ast.expr) -> list[ast.expr]:
+    if isinstance(t, ast.BoolOp) and isinstance(t.op, ast.Or):
+        return [c for v in t.values for c in _disjuncts(v)]
+    if isinstance(t, ast.UnaryOp) and isinstance(t.op, ast.Not) and isinstance(t.operand, ast.BoolOp) and isinstance(t.operand.op, ast.And):
+        return [c for v in t.operand.values for c in _disjuncts(_negated(v))]
+    return [t]
+
+
+def _split_conditions(stmts: list[ast.stmt]) -> list[ast.stmt]:
+    """`if a and b: S` -> `if a: if b: S`;  `if a or b: <exit>` -> `if a: <exit>` `if b: <exit>` (same evaluation order, same effect).
+
+    The path conditions of core/cfg.py drop a condition as a whole as soon as one name in it is mutated; after the split a
+    mutation of one set (`visited.add(n)`) no longer hides what is known about another (`n not in excluded`)."""
+    from core.cfg import always_exits
+
+    out: list[ast.stmt] = []
+    for st in stmts:
+        for fld in ("body", "orelse", "finalbody"):
+            blk = getattr(st, fld, None)
+            if isinstance(blk, list) and blk and isinstance(blk[0], ast.stmt):
+                setattr(st, fld, _split_conditions(blk))
+        if isinstance(st, ast.Try):
+            for h in st.handlers:
+                h.body = _split_conditions(h.body)
+        if isinstance(st, ast.If) and not st.orelse:
+            conj = _conjuncts(st.test)
+            if len(conj) > 1:
+                inner: list[ast.stmt] = st.body
+                for c in reversed(conj):
+                    node = ast.copy_location(ast.If(test=c, body=inner, orelse=[]), st)
+                    if hasattr(st, "_src"):
+                        node._src = st._src  # type: ignore[attr-defined]
+                    inner = [node]
+                out.append(inner[0])
+                continue
+            disj = _disjuncts(st.test)
+            if len(disj) > 1 and always_exits(st.body) and all(isinstance(x, (ast.Continue, ast.Break, ast.Return, ast.Raise, ast.Pass)) for x in st.body):
+                for k, d in enumerate(disj):
+                    node = ast.copy_location(ast.If(test=d, body=st.body if k == 0 else _clone(st.body), orelse=[]), st)
+                    if hasattr(st, "_src"):
+                        node._src = st._src  # type: ignore[attr-defined]
+                    out.append(node)
+                continue
+        out.append(st)
+    return out
+
+
+def search_view(repo: Repo, fi: FuncInfo) -> FuncInfo:
+    cache = repo.__dict__.setdefault("_search_views", {})
+    if fi.fq in cache:
+        return cache[fi.fq]
+    v0 = Inliner(repo, types_of(repo), _allow).view(fi)
+    node = v0.node
+    _eliminate_aliases(node, set(fi.param_names))
+    node.body = _split_conditions(node.body)
+    ast.fix_missing_locations(node)
+    set_parents(node)
+    v = ViewInfo(name=fi.name, qualname=fi.qualname, node=node, module=fi.module, cls=fi.cls, decorators=list(fi.decorators), outer=fi.outer)
+    v.shown = fi.qualname  # type: ignore[attr-defined]
+    v.origin = getattr(v0, "origin", {})  # type: ignore[attr-defined]
+    v.inlined = list(getattr(v0, "inlined", []))  # type: ignore[attr-defined]
+    v.base = fi  # type: ignore[attr-defined]
+    node._func = v  # type: ignore[attr-defined]
+    cache[fi.fq] = v
+    return v
+
+
+# --------------------------------------------------------------------------- small syntactic helpers
+
+
+def strip(e: ast.AST) -> ast.AST:
+    """Removes order / container conversions that do not change which nodes are meant: list(x), sorted(x), reversed(x), [*x], x.copy(), x[:]."""
+    while True:
+        if isinstance(e, ast.Call) and isinstance(e.func, ast.Name) and e.func.id in _WRAPPERS and len(e.args) == 1 and not isinstance(e.args[0], ast.Starred):
+            e = e.args[0]
+        elif isinstance(e, (ast.List, ast.Tuple, ast.Set)) and len(e.elts) == 1 and isinstance(e.elts[0], ast.Starred):
+            e = e.elts[0].value
+        elif isinstance(e, ast.Call) and isinstance(e.func, ast.Attribute) and e.func.attr == "copy" and not e.args:
+            e = e.func.value
+        elif isinstance(e, ast.Subscript) and isinstance(e.slice, ast.Slice) and e.slice.lower is None and e.slice.upper is None:
+            e = e.value
+        elif isinstance(e, ast.NamedExpr):
+            e = e.value
+        else:
+            return e
+
+
+def _chain(node: ast.AST) -> list[ast.AST]:
+    return [node, *ancestors(node)]
+
+
+def _inside_body(node: ast.AST, loop: ast.AST) -> bool:
+    """`node` is executed as part of an iteration of the statement loop `loop` (in its body, not in its header)."""
+    ch = _chain(node)
+    for i, a in enumerate(ch):
+        if a is loop:
+            return i > 0 and any(ch[i - 1] is s for s in loop.body)
+    return False
+
+
+def _inside_gen(node: ast.AST, comp: ast.AST, j: int) -> bool:
+    """`node` is evaluated once per element of generator j of the comprehension (element, later generators, filters from j on)."""
+    ch = _chain(node)
+    for i, a in enumerate(ch):
+        if a is comp:
+            if i == 0:
+                return False
+            c = ch[i - 1]
+            if isinstance(c, ast.comprehension):
+                k = next(k for k, g in enumerate(comp.generators) if g is c)
+                if k > j:
+                    return True
+                return k == j and i > 1 and any(ch[i - 2] is f for f in c.ifs)
+            return True  # elt / key / value
+    return False
+
+
+def _single_assignments(fn: ast.AST) -> dict[str, ast.expr]:
+    """name -> value for locals bound exactly once, by a plain or annotated assignment."""
+    counts: dict[str, int] = {}
+    vals: dict[str, ast.expr] = {}
+    for n in ast.walk(fn):
+        if isinstance(n, ast.Name) and isinstance(n.ctx, (ast.Store, ast.Del)):
+            counts[n.id] = counts.get(n.id, 0) + 1
+        if isinstance(n, ast.Assign) and len(n.targets) == 1 and isinstance(n.targets[0], ast.Name):
+            vals[n.targets[0].id] = n.value
+        elif isinstance(n, ast.AnnAssign) and isinstance(n.target, ast.Name) and n.value is not None:
+            vals[n.target.id] = n.value
+        elif isinstance(n, ast.AugAssign) and isinstance(n.target, ast.Name):
+            counts[n.target.id] = counts.get(n.target.id, 0) + 1
+    return {k: v for k, v in vals.items() if counts.get(k) == 1}
+
+
+class _Ren(ast.NodeTransformer):
+    def __init__(self, old: str, new: str) -> None:
+        self.old, self.new = old, new
+
+    def visit_Name(self, n: ast.Name):  # noqa: N802
+        if n.id == self.old:
+            return ast.copy_location(ast.Name(id=self.new, ctx=n.ctx), n)
+        return n
+
+
+def _clone(e):
+    """Copy of a sub-tree of a view (keeps the `_src` back references, not the parent links)."""
+    if isinstance(e, list):
+        return [_clone(x) for x in e]
+    if not isinstance(e, ast.AST):
+        return e
+    new = type(e)()
+    for f in e._fields:
+        if hasattr(e, f):
+            setattr(new, f, _clone(getattr(e, f)))
+    for a in ("lineno", "col_offset", "end_lineno", "end_col_offset"):
+        if hasattr(e, a):
+            setattr(new, a, getattr(e, a))
+    if hasattr(e, "_src"):
+        new._src = e._src  # type: ignore[attr-defined]
+    return new
+
+
+def _renamed(e: ast.expr, old: str, new: str) -> ast.expr:
+    if old == new:
+        return e
+    return _Ren(old, new).visit(_clone(e))
+
+
+def _hier_params(repo: Repo) -> list[str]:
+    for ci in repo.classes.values():
+        if ci.name == "AbstractGraph":
+            m = ci.methods.get(HIER)
+            if m is not None:
+                return m.param_names[1:]
+    return []
+
+
+def make_subst(repo: Repo, v: FuncInfo):
+    """Substitution for guard formulas of a view: single-assignment boolean locals stand for their definition, private boolean
+    helpers for their body, and a hierarchy test written with keyword arguments for the positional one."""
+    single = _single_assignments(v.node)
+    params = set(v.param_names)
+    helper = bool_inliner(repo).subst(v, 0, None)
+    hp = _hier_params(repo)
+
+    def subst(e: ast.expr):
+        if isinstance(e, ast.Name) and e.id in single and e.id not in params:
+            val = single[e.id]
+            if isinstance(val, (ast.Call, ast.Compare, ast.BoolOp, ast.UnaryOp)) and not _is_collection_expr(val):
+                return to_formula(val, subst)
+        if isinstance(e, ast.Call) and isinstance(e.func, ast.Attribute) and e.func.attr == HIER and e.keywords and len(hp) == 2:
+            args: dict[str, ast.expr] = dict(zip(hp, e.args))
+            for k in e.keywords:
+                if k.arg:
+                    args[k.arg] = k.value
+            if all(p in args for p in hp):
+                return atom(f"bool({norm(e.func)}({norm(args[hp[0]])}, {norm(args[hp[1]])}))")
+        return helper(e)
+
+    return subst
+
+
+def _is_collection_expr(e: ast.expr) -> bool:
+    """Calls that build / return collections must not be read as boolean definitions of a local."""
+    if isinstance(e, ast.Call):
+        if isinstance(e.func, ast.Name) and e.func.id in (_WRAPPERS | {SUBMODULES, "dict", "deque"}):
+            return True
+        if isinstance(e.func, ast.Attribute) and e.func.attr in (SUCC, PRED, "pop", "popleft", "copy", "union", "difference", "intersection"):
+            return True
+    return False
+
+
+# --------------------------------------------------------------------------- construction
+
+
+def _expansions(fn: ast.AST) -> list[ast.Call]:
+    return [c for c in ast.walk(fn) if isinstance(c, ast.Call) and isinstance(c.func, ast.Attribute) and c.func.attr in (SUCC, PRED)]
+
+
+def _pop_target(loop: ast.While, x: str) -> str | None:
+    """Worklist W such that the loop body binds x by `x = W.pop(..)` / `W.popleft()`."""
+    for n in ast.walk(loop):
+        val = None
+        if isinstance(n, ast.Assign) and len(n.targets) == 1 and isinstance(n.targets[0], ast.Name) and n.targets[0].id == x:
+            val = n.value
+        elif isinstance(n, ast.AnnAssign) and isinstance(n.target, ast.Name) and n.target.id == x:
+            val = n.value
+        elif isinstance(n, ast.NamedExpr) and n.target.id == x:
+            val = n.value
+        if val is not None and isinstance(val, ast.Call) and isinstance(val.func, ast.Attribute) and val.func.attr in ("pop", "popleft") and isinstance(val.func.value, ast.Name):
+            return val.func.value.id
+    return None
+
+
+def _binder(e: ast.Call):
+    """The iteration that binds the expanded node: ("while", loop, W) | ("for", loop, iter) | ("comp", comp, j, iter) | None."""
+    if not (e.args and isinstance(e.args[0], ast.Name)):
+        return None
+    x = e.args[0].id
+    for a in ancestors(e):
+        if isinstance(a, (ast.For, ast.AsyncFor)) and isinstance(a.target, ast.Name) and a.target.id == x and _inside_body(e, a):
+            return ("for", a, a.iter)
+        if isinstance(a, ast.While) and _inside_body(e, a):
+            w = _pop_target(a, x)
+            if w is not None:
+                return ("while", a, w)
+        if isinstance(a, (*_COMPS, ast.DictComp)):
+            for j, g in enumerate(a.generators):
+                if isinstance(g.target, ast.Name) and g.target.id == x and _inside_gen(e, a, j):
+                    return ("comp", a, j, g.iter)
+    return None
+
+
+def _iter_elements(e: ast.expr, single: dict[str, ast.expr]) -> list[tuple[ast.AST, ast.AST | None]]:
+    """Elements an iterable expression contributes: [(element expression, comprehension it is the element of | None)]."""
+    e = strip(e)
+    if isinstance(e, _COMPS):
+        return [(e.elt, e)]
+    if isinstance(e, (ast.List, ast.Tuple, ast.Set)):
+        out: list[tuple[ast.AST, ast.AST | None]] = []
+        for x in e.elts:
+            if isinstance(x, ast.Starred):
+                out += _iter_elements(x.value, single)
+            else:
+                out.append((x, None))
+        return out
+    if isinstance(e, ast.Name) and e.id in single and isinstance(strip(single[e.id]), _COMPS):
+        c = strip(single[e.id])
+        return [(c.elt, c)]
+    if isinstance(e, ast.BinOp) and isinstance(e.op, (ast.Add, ast.BitOr)):
+        return _iter_elements(e.left, single) + _iter_elements(e.right, single)
+    return [(e, None)]
+
+
+@dataclass
+class _Site:
+    receiver: str
+    node: ast.AST  # Call | AugAssign | Assign | AnnAssign | Return
+    elements: list[tuple[ast.AST, ast.AST | None]]
+    method: str
+
+
+def _mutation_sites(fn: ast.AST, single: dict[str, ast.expr], result_vars: set[str]) -> list[_Site]:
+    out: list[_Site] = []
+    for n in ast.walk(fn):
+        if isinstance(n, ast.Call) and isinstance(n.func, ast.Attribute) and n.func.attr in _ADDERS and dotted(n.func.value):
+            m = n.func.attr
+            if m in ("append", "add", "appendleft") and len(n.args) == 1:
+                out.append(_Site(dotted(n.func.value), n, [(n.args[0], None)], m))
+            elif m == "insert" and len(n.args) == 2:
+                out.append(_Site(dotted(n.func.value), n, [(n.args[1], None)], m))
+            elif m in ("extend", "update", "extendleft") and n.args:
+                els: list = []
+                for a in n.args:
+                    els += _iter_elements(a, single)
+                out.append(_Site(dotted(n.func.value), n, els, m))
+        elif isinstance(n, ast.AugAssign) and isinstance(n.op, (ast.Add, ast.BitOr)) and dotted(n.target):
+            out.append(_Site(dotted(n.target), n, _iter_elements(n.value, single), "+="))
+        elif isinstance(n, (ast.Assign, ast.AnnAssign)) and n.value is not None:
+            tgt = n.targets[0] if isinstance(n, ast.Assign) and len(n.targets) == 1 else getattr(n, "target", None)
+            if isinstance(tgt, ast.Name):
+                v = strip(n.value)
+                if isinstance(v, _COMPS) and tgt.id in result_vars:
+                    out.append(_Site(tgt.id, n, [(v.elt, v)], "="))
+                elif isinstance(v, ast.BinOp) and isinstance(v.op, (ast.Add, ast.BitOr)) and isinstance(strip(v.left), ast.Name) and strip(v.left).id == tgt.id:
+                    out.append(_Site(tgt.id, n, _iter_elements(v.right, single), "+="))
+        elif isinstance(n, ast.Return) and n.value is not None:
+            v = strip(n.value)
+            if isinstance(v, _COMPS):
+                out.append(_Site("<return>", n, [(v.elt, v)], "return"))
+    return out
+
+
+def _node_expr_text(e: ast.AST, single: dict[str, ast.expr]) -> str:
+    """Canonical text of a node expression: locals bound once to `p.identifier` are replaced by it."""
+    e = strip(e)
+    seen = 0
+    while isinstance(e, ast.Name) and e.id in single and seen < 5:
+        v = strip(single[e.id])
+        if isinstance(v, (ast.Attribute, ast.Name)) or (isinstance(v, ast.Call) and isinstance(v.func, ast.Name) and v.func.id == "get_node"):
+            e = v
+            seen += 1
+        else:
+            break
+    if isinstance(e, ast.Call) and isinstance(e.func, ast.Name) and e.func.id == "get_node" and len(e.args) == 1:
+        return f"{norm(e.args[0])}.{NODE_ATTR}"
+    return norm(e)
+
+
+def _worklist_sources(fn: ast.AST, worklist_expr: ast.AST, outer: ast.AST, single: dict[str, ast.expr]) -> tuple[list[str], list[ast.stmt]]:
+    """Names of the sets / node expressions a worklist is initialised from, and the initialising statements."""
+
+    def sources_of(e: ast.AST) -> list[str]:
+        e = strip(e)
+        if isinstance(e, (ast.List, ast.Tuple, ast.Set)):
+            out: list[str] = []
+            for x in e.elts:
+                out += sources_of(x.value) if isinstance(x, ast.Starred) else [_node_expr_text(x, single)]
+            return out
+        if isinstance(e, ast.Call) and isinstance(e.func, ast.Name) and e.func.id == "deque" and e.args:
+            return sources_of(e.args[0])
+        return [norm(e)]
+
+    base = strip(worklist_expr)
+    if not isinstance(base, ast.Name):
+        return sources_of(base), []
+    inits: list[ast.stmt] = []
+    srcs: list[str] = []
+    for n in ast.walk(fn):
+        val = None
+        if isinstance(n, ast.Assign) and any(isinstance(t, ast.Name) and t.id == base.id for t in n.targets):
+            val = n.value
+        elif isinstance(n, ast.AnnAssign) and isinstance(n.target, ast.Name) and n.target.id == base.id and n.value is not None:
+            val = n.value
+        if val is None or any(a is outer for a in ancestors(n)):
+            continue
+        inits.append(n)
+        for s in sources_of(val):
+            if s not in srcs:
+                srcs.append(s)
+    if not inits:
+        return [base.id], []  # the iterated variable is itself the set (parameter or set built elsewhere)
+    return srcs, inits
+
+
+def _collection_of(e: ast.AST, params: list[str], single: dict[str, ast.expr], depth: int = 0) -> tuple[str, list[str]] | None:
+    """(collection parameter, elements removed before iterating) for an iterated expression, resolving locals."""
+    e = strip(e)
+    if isinstance(e, ast.Name):
+        if e.id in params:
+            return e.id, []
+        if e.id in single and depth < 4:
+            return _collection_of(single[e.id], params, single, depth + 1)
+        return None
+    removed = None
+    inner = None
+    if isinstance(e, ast.BinOp) and isinstance(e.op, ast.Sub):
+        inner, removed = e.left, e.right
+    elif isinstance(e, ast.Call) and isinstance(e.func, ast.Attribute) and e.func.attr == "difference" and len(e.args) == 1:
+        inner, removed = e.func.value, e.args[0]
+    if inner is not None:
+        got = _collection_of(inner, params, single, depth + 1)
+        r = strip(removed)
+        if got is not None and isinstance(r, (ast.Set, ast.List, ast.Tuple)) and all(isinstance(x, ast.Name) for x in r.elts):
+            return got[0], got[1] + [x.id for x in r.elts]
+        return None
+    if isinstance(e, _COMPS) and len(e.generators) == 1 and isinstance(e.elt, ast.Name) and isinstance(e.generators[0].target, ast.Name) and e.elt.id == e.generators[0].target.id and not e.generators[0].ifs:
+        return _collection_of(e.generators[0].iter, params, single, depth + 1)
+    return None
+
+
+def _binding_loop(name: str, at: ast.AST):
+    """(loop node, iterated expression) of the For / comprehension generator that binds `name` around `at`."""
+    for a in ancestors(at):
+        if isinstance(a, (ast.For, ast.AsyncFor)) and isinstance(a.target, ast.Name) and a.target.id == name:
+            return a, a.iter
+        if isinstance(a, (*_COMPS, ast.DictComp)):
+            for g in a.generators:
+                if isinstance(g.target, ast.Name) and g.target.id == name:
+                    return a, g.iter
+    return None
+
+
+def _receiving_var(call: ast.AST) -> tuple[str | None, bool]:
+    """(variable that receives the value of `call`, it is assigned exactly that value)."""
+    st = stmt_of(call)
+    if isinstance(st, ast.Assign) and len(st.targets) == 1 and isinstance(st.targets[0], ast.Name):
+        v = strip(st.value)
+        if v is call:
+            return st.targets[0].id, True
+        # x = x | f(..) / x = x.union(f(..)) accumulate
+        return st.targets[0].id, False
+    if isinstance(st, ast.AnnAssign) and isinstance(st.target, ast.Name) and st.value is not None:
+        return st.target.id, strip(st.value) is call
+    if isinstance(st, ast.AugAssign) and isinstance(st.target, ast.Name):
+        return st.target.id, False
+    if isinstance(st, ast.Expr) and isinstance(st.value, ast.Call) and isinstance(st.value.func, ast.Attribute) and isinstance(st.value.func.value, ast.Name):
+        return st.value.func.value.id, False
+    return None, False
+
+
+def _subtree_sites(m: SearchModel, single: dict[str, ast.expr]) -> list[SubtreeSite]:
+    fn = m.fi.node
+    params = m.fi.param_names
+    out: list[SubtreeSite] = []
+    for c in ast.walk(fn):
+        if not (isinstance(c, ast.Call) and isinstance(c.func, ast.Name) and c.func.id == SUBMODULES and len(c.args) + len(c.keywords) == 2):
+            continue
+        arg_e = c.args[1] if len(c.args) == 2 else next((k.value for k in c.keywords if k.arg not in (None, "graph")), None)
+        arg = dotted(arg_e) if arg_e is not None else ""
+        target, assigned = _receiving_var(c)
+        site = SubtreeSite(c, arg, None, None, [], target, assigned, None)
+        bl = _binding_loop(arg, c) if arg else None
+        if bl is not None:
+            site.loop = bl[0]
+            got = _collection_of(bl[1], params, single)
+            if got is not None:
+                site.collection, site.implicit_skips = got
+        elif arg in params:
+            site.param = arg
+        elif arg in single:
+            # a local standing for a parameter (x = dependent)
+            v = strip(single[arg])
+            if isinstance(v, ast.Name) and v.id in params:
+                site.param = v.id
+        site.guard = m.guard_of(c)
+        out.append(site)
+    return out
+
+
+def _parent_ids(e: ast.AST, params: list[str], single: dict[str, ast.expr], depth: int = 0) -> list[str] | None:
+    """Filter parameters [p..] such that `e` evaluates to the identifiers of those of them that are parent-module filters."""
+    if depth > 6:
+        return None
+    e = strip(e)
+    if isinstance(e, ast.Name) and e.id in single:
+        return _parent_ids(single[e.id], params, single, depth + 1)
+    if isinstance(e, ast.Call) and isinstance(e.func, ast.Name) and e.func.id == "get_parent_nodes" and len(e.args) == 1:
+        seq = _param_seq(e.args[0], params, single)
+        return seq
+    if isinstance(e, _COMPS) and len(e.generators) == 1 and isinstance(e.generators[0].target, ast.Name):
+        g = e.generators[0]
+        t = g.target.id
+        inner = _parent_ids(g.iter, params, single, depth + 1)
+        if inner is not None and isinstance(e.elt, ast.Name) and e.elt.id == t and all(_is_not_none_test(c, t) for c in g.ifs):
+            return inner
+        seq = _param_seq(g.iter, params, single)
+        if seq is not None and _is_node_of(e.elt, t):
+            flags = [c for c in g.ifs if not _is_not_none_test(c, f"{t}.{NODE_ATTR}")]
+            if len(flags) == 1 and isinstance(flags[0], ast.Attribute) and dotted(flags[0]) == f"{t}.{PARENT_FLAG}":
+                return seq
+    return None
+
+
+def _is_not_none_test(c: ast.expr, text: str) -> bool:
+    return isinstance(c, ast.Compare) and len(c.ops) == 1 and isinstance(c.ops[0], ast.IsNot) and norm(c.left) == text and isinstance(c.comparators[0], ast.Constant) and c.comparators[0].value is None
+
+
+def _is_node_of(e: ast.AST, var: str) -> bool:
+    if isinstance(e, ast.Attribute) and e.attr == NODE_ATTR and dotted(e.value) == var:
+        return True
+    return isinstance(e, ast.Call) and isinstance(e.func, ast.Name) and e.func.id == "get_node" and len(e.args) == 1 and dotted(e.args[0]) == var
+
+
+def _param_seq(e: ast.AST, params: list[str], single: dict[str, ast.expr]) -> list[str] | None:
+    e = strip(e)
+    if isinstance(e, ast.Name) and e.id in single:
+        return _param_seq(single[e.id], params, single)
+    if isinstance(e, (ast.List, ast.Tuple, ast.Set)) and e.elts and all(isinstance(x, ast.Name) and x.id in params for x in e.elts):
+        return [x.id for x in e.elts]
     return None
 
 
 def build(repo: Repo, fi: FuncInfo) -> SearchModel | None:
-    calls = [c for c in calls_in(fi.node) if isinstance(c.func, ast.Attribute) and c.func.attr in (SUCC, PRED)]
-    if not calls:
+    v = search_view(repo, fi)
+    fn = v.node
+    exps = _expansions(fn)
+    if not exps:
         return None
-    in_loop = [c for c in calls if any(isinstance(a, ast.While) for a in ancestors(c))]
+    bound = [(e, _binder(e)) for e in exps]
+    in_loop = [(e, b) for e, b in bound if b is not None]
     if len(in_loop) != 1:
-        raise AnalysisError(f"{fi.fq}: {len(in_loop)} neighbour expansions inside worklist loops (unknown idiom)")
-    ncall = in_loop[0]
+        raise AnalysisError(
+            f"{fi.fq}: {len(in_loop)} neighbour expansions of a node taken from a worklist / node loop (unknown search idiom; "
+            f"expansions found: {[norm(e) for e in exps]})"
+        )
+    ncall, b = in_loop[0]
+    single = _single_assignments(fn)
     direction = "succ" if ncall.func.attr == SUCC else "pred"
     graph = dotted(ncall.func.value)
-    loop = next((a for a in ancestors(ncall) if isinstance(a, ast.While)), None)
-    if loop is None or not isinstance(loop.test, ast.Name):
-        raise AnalysisError(f"{fi.fq}: neighbour expansion is not inside `while <worklist>:`")
-    worklist = loop.test.id
-    popped = None
-    for s in loop.body:
-        if isinstance(s, ast.Assign) and is_attr_call(s.value, "pop") and dotted(s.value.func.value) == worklist and isinstance(s.targets[0], ast.Name):
-            popped = s.targets[0].id
-            break
-    if popped is None:
-        raise AnalysisError(f"{fi.fq}: worklist {worklist} is never popped into a variable")
-    if not (ncall.args and dotted(ncall.args[0]) == popped):
-        raise AnalysisError(f"{fi.fq}: neighbours are not those of the popped node: {norm(ncall)}")
-    # neighbour loop
-    st = stmt_of(ncall)
-    nvar_src = None
-    if isinstance(st, ast.Assign) and isinstance(st.targets[0], ast.Name):
-        nvar_src = st.targets[0].id
-    nloop = None
-    for n in ast.walk(loop):
-        if isinstance(n, ast.For) and ((nvar_src and dotted(n.iter) == nvar_src) or n.iter is ncall):
-            nloop = n
-    if nloop is None or not isinstance(nloop.target, ast.Name):
-        raise AnalysisError(f"{fi.fq}: loop over the neighbours not found")
-    nvar = nloop.target.id
-    visited = None
-    skip_sets = set()
-    for n in ast.walk(loop):
-        if isinstance(n, ast.If) and isinstance(n.test, ast.Compare) and len(n.test.ops) == 1 and isinstance(n.test.ops[0], ast.In) and dotted(n.test.left) in (popped, nvar) and len(n.body) == 1 and isinstance(n.body[0], ast.Continue):
-            skip_sets.add(dotted(n.test.comparators[0]))
-    for n in ast.walk(loop):
-        if is_attr_call(n, "add") and n.args and dotted(n.args[0]) in (popped, nvar) and dotted(n.func.value) in skip_sets:
-            visited = dotted(n.func.value)
-    hier_calls = [c for c in ast.walk(nloop) if isinstance(c, ast.Call) and isinstance(c.func, ast.Attribute) and c.func.attr == HIER]
-    model = SearchModel(fi, direction, graph, worklist, popped, visited, loop, nloop, nvar, ncall, hier_calls, None)
-    if hier_calls:
-        texts = {norm(c) for c in hier_calls}
-        if len(texts) != 1:
-            raise AnalysisError(f"{fi.fq}: several different hierarchy tests {sorted(texts)}")
-        model.hier_atom = f"bool({texts.pop()})"
-    rets = {dotted(s.value) for s in own_nodes(fi.node) if isinstance(s, ast.Return) and s.value is not None}
-    model.result_vars = {r for r in rets if r}
-    # subtree sets
-    params = fi.param_names
-    for n in own_nodes(fi.node):
-        if isinstance(n, ast.Assign) and isinstance(n.value, ast.Call) and isinstance(n.value.func, ast.Name) and n.value.func.id == SUBMODULES:
-            if len(n.value.args) == 2 and isinstance(n.targets[0], ast.Name):
-                model.submodule_sets[n.targets[0].id] = dotted(n.value.args[1])
-        if is_attr_call(n, "update") and n.args and isinstance(n.args[0], ast.Call) and isinstance(n.args[0].func, ast.Name) and n.args[0].func.id == SUBMODULES:
-            arg = dotted(n.args[0].args[1]) if len(n.args[0].args) == 2 else ""
-            # the element variable iterates a set-typed parameter
-            for a in ancestors(n):
-                if isinstance(a, ast.For) and dotted(a.target) == arg and dotted(a.iter) in params:
-                    model.accumulated_sets[dotted(n.func.value)] = dotted(a.iter)
-    # events
-    for c in calls_in(fi.node):
-        if not isinstance(c.func, ast.Attribute) or c.func.attr not in ("append", "add", "extend", "update", "insert", "appendleft"):
+    popped = ncall.args[0].id
+    kind = b[0]
+    if kind == "while":
+        outer, worklist, wl_expr = b[1], b[2], ast.Name(id=b[2], ctx=ast.Load())
+        loop_stmt = outer
+    else:
+        outer = b[1]
+        it = b[2] if kind == "for" else b[3]
+        base = strip(it)
+        worklist = base.id if isinstance(base, ast.Name) else norm(base)
+        wl_expr = it
+        loop_stmt = outer if kind == "for" else stmt_of(outer)
+    gen_j = b[2] if kind == "comp" else None
+
+    def in_outer(node: ast.AST) -> bool:
+        if kind == "comp":
+            return _inside_gen(node, outer, gen_j)
+        return _inside_body(node, outer)
+
+    # ---- neighbour iterations
+    def resolve(e: ast.AST, depth: int = 0):
+        """filters [(cond, var)] applied on the way from the expansion call to the iterated expression `e`; None if `e` is something else."""
+        e = strip(e)
+        if e is ncall:
+            return []
+        if depth > 4:
+            return None
+        if isinstance(e, ast.Name) and e.id in single:
+            return resolve(single[e.id], depth + 1)
+        if isinstance(e, _COMPS) and len(e.generators) == 1 and isinstance(e.generators[0].target, ast.Name) and isinstance(e.elt, ast.Name) and e.elt.id == e.generators[0].target.id:
+            inner = resolve(e.generators[0].iter, depth + 1)
+            if inner is not None:
+                return inner + [(c, e.generators[0].target.id) for c in e.generators[0].ifs]
+        return None
+
+    iters: list[NeighbourIter] = []
+    for n in ast.walk(fn):
+        if isinstance(n, (ast.For, ast.AsyncFor)):
+            got = resolve(n.iter)
+            if got is not None:
+                if not isinstance(n.target, ast.Name):
+                    raise AnalysisError(f"{fi.fq}: neighbour loop `{norm(n.target)}` does not bind a single variable")
+                iters.append(NeighbourIter(n, None, n.target.id, [(_renamed(c, var, n.target.id), True) for c, var in got]))
+        elif isinstance(n, (*_COMPS, ast.DictComp)):
+            for j, g in enumerate(n.generators):
+                got = resolve(g.iter)
+                if got is not None and isinstance(g.target, ast.Name):
+                    iters.append(NeighbourIter(n, j, g.target.id, [(_renamed(c, var, g.target.id), True) for c, var in got]))
+    if not iters:
+        raise AnalysisError(f"{fi.fq}: no loop or comprehension over the neighbours `{norm(ncall)}` found")
+
+    def niter_of(node: ast.AST) -> NeighbourIter | None:
+        best = None
+        for it_ in iters:
+            inside = _inside_body(node, it_.node) if it_.gen is None else _inside_gen(node, it_.node, it_.gen)
+            if inside and (best is None or any(a is best.node for a in ancestors(it_.node))):
+                best = it_
+        return best
+
+    # prefer a statement loop as "the" neighbour loop (consumers read .neighbour_loop / .neighbour_var)
+    main_iter = next((i for i in iters if i.gen is None), iters[0])
+
+    rets = set()
+    for s in own_nodes(fn):
+        if isinstance(s, ast.Return) and s.value is not None:
+            r = strip(s.value)
+            if isinstance(r, ast.Name):
+                rets.add(r.id)
+    model = SearchModel(v, direction, graph, worklist, popped, None, loop_stmt, main_iter.node, main_iter.var, ncall, [], None)
+    model.base = fi
+    model.outer_kind = kind
+    model.neighbour_iters = iters
+    model.result_vars = rets
+    model.other_expansions = [e for e, bb in bound if bb is None]
+    model.subst = make_subst(repo, v)
+    model.worklist_sources, model.worklist_inits = _worklist_sources(fn, wl_expr, outer, single)
+
+    # ---- hierarchy tests
+    model.hier_calls = [c for c in ast.walk(fn) if isinstance(c, ast.Call) and isinstance(c.func, ast.Attribute) and c.func.attr == HIER and (in_outer(c) or niter_of(c) is not None)]
+    if model.hier_calls:
+        model.hier_atom = model.hier()[1]
+
+    # ---- events
+    sites = [s for s in _mutation_sites(fn, single, rets)]
+    raw: list[tuple[_Site, ast.AST, ast.AST | None, NeighbourIter | None, Formula, str]] = []
+    for s in sites:
+        for elt, comp in s.elements:
+            inner_it = niter_of(elt) or niter_of(s.node)
+            inside_outer = in_outer(s.node) or in_outer(elt)
+            if not inside_outer and inner_it is None:
+                continue
+            extra: list = []
+            if comp is not None and not any(a is s.node for a in ancestors(elt)):
+                # element of a comprehension bound to a local and added later: its filters hold for the element
+                from core.cfg import expr_conditions
+
+                extra += expr_conditions(elt)
+                cs_ = list(conds(v, s.node)) + extra
+            else:
+                cs_ = list(conds(v, elt))
+            its = [i for i in iters if (_inside_body(elt, i.node) if i.gen is None else _inside_gen(elt, i.node, i.gen)) or (_inside_body(s.node, i.node) if i.gen is None else _inside_gen(s.node, i.node, i.gen))]
+            for i in its:
+                cs_ += i.extra
+            g = conds_formula(cs_, model.subst)
+            text = " and ".join(("" if pol else "not ") + norm(e) for e, pol in cs_) or "True"
+            raw.append((s, elt, comp, inner_it, g, text))
+
+    # visited sets: a set to which the current node / neighbour is added only if it is not in it yet
+    nvars = {i.var for i in iters}
+    visited_sets: list[str] = []
+    for s, elt, comp, it_, g, text in raw:
+        if s.method in ("add", "update", "+=") and isinstance(elt, ast.Name) and elt.id in ({popped} | nvars) and s.receiver != worklist:
+            if implies(g, f_not(atom(f"{elt.id} in {s.receiver}"))) and f"{elt.id} in {s.receiver}" in atoms_of(g):
+                if s.receiver not in visited_sets:
+                    visited_sets.append(s.receiver)
+    visited_sets.sort(key=lambda r: 0 if any(s.receiver == r and isinstance(elt, ast.Name) and elt.id == popped for s, elt, *_ in raw) else 1)
+    model.visited_sets = visited_sets
+    model.visited = visited_sets[0] if visited_sets else None
+
+    for s, elt, comp, it_, g, text in raw:
+        if s.receiver == worklist:
+            k = "push"
+        elif s.receiver in visited_sets:
+            k = "mark"
+        elif s.receiver in rets or s.receiver == "<return>":
+            k = "record"
+        else:
             continue
-        recv = dotted(c.func.value)
-        inside = any(a is nloop for a in ancestors(c))
-        in_while = any(a is loop for a in ancestors(c))
-        if not in_while:
-            continue
-        kind = None
-        if recv == worklist:
-            kind = "push"
-        elif visited is not None and recv == visited:
-            kind = "mark"
-        elif recv in model.result_vars:
-            kind = "record"
-        if kind is None:
-            continue
-        cs_ = conds(fi, c)
-        # conditions established outside the while loop are irrelevant for the discipline
-        guard = guard_formula(fi, c)
-        what = norm(c.args[0]) if c.args else ""
-        model.events.append(Event(kind, c, what, guard, " and ".join(("" if pol else "not ") + norm(e) for e, pol in cs_) or "True", inside))
-    # role
+        model.events.append(Event(k, s.node, norm(elt), g, text, it_ is not None, elt, it_.var if it_ is not None else None, s.receiver))
+
+    # ---- parameters and sets
+    _classify_params(model, single)
+    model.subtree_sites = _subtree_sites(model, single)
+    for st in model.subtree_sites:
+        key = st.target if st.target is not None else norm(st.call)
+        if st.param is not None and (st.assigned or st.target is None):
+            model.submodule_sets.setdefault(key, st.param)
+        elif st.collection is not None and st.target is not None:
+            model.accumulated_sets.setdefault(st.target, st.collection)
+    for n in ast.walk(fn):
+        tgt = val = None
+        if isinstance(n, ast.Assign) and len(n.targets) == 1 and isinstance(n.targets[0], ast.Name):
+            tgt, val = n.targets[0].id, n.value
+        elif isinstance(n, ast.AnnAssign) and isinstance(n.target, ast.Name) and n.value is not None:
+            tgt, val = n.target.id, n.value
+        if tgt is not None:
+            ids = _parent_ids(val, v.param_names, {k: x for k, x in single.items() if k != tgt})
+            if ids is not None:
+                model.parent_id_sets[tgt] = ids
+    for n in ast.walk(fn):
+        if isinstance(n, ast.Call) and isinstance(n.func, ast.Attribute) and n.func.attr in ("add", "remove", "discard") and len(n.args) == 1 and dotted(n.func.value):
+            recv = dotted(n.func.value)
+            if recv in model.submodule_sets or recv in model.accumulated_sets:
+                model.set_ops.append(SetOp("add" if n.func.attr == "add" else "remove", recv, _node_expr_text(n.args[0], single), n, model.guard_of(n)))
+
+    # ---- role
     if fi.name == SUBMODULES:
         model.role = "submodules"
-    elif model.accumulated_sets:
+    elif model.accumulated_sets or model.collection_params:
         model.role = "other"
     else:
         model.role = "explicit"
+    _subject_object(model)
     return model
 
 
+def _classify_params(m: SearchModel, single: dict[str, ast.expr]) -> None:
+    fn = m.fi.node
+    params = m.fi.param_names
+    coll: list[str] = []
+    filt: list[str] = []
+    for n in ast.walk(fn):
+        it = None
+        if isinstance(n, (ast.For, ast.AsyncFor)):
+            it = n.iter
+        elif isinstance(n, ast.comprehension):
+            it = n.iter
+        if it is not None:
+            got = _collection_of(it, params, single)
+            if got is not None and got[0] not in coll and got[0] != m.graph:
+                coll.append(got[0])
+        if isinstance(n, ast.Attribute) and n.attr in (NODE_ATTR, PARENT_FLAG) and isinstance(n.value, ast.Name) and n.value.id in params and n.value.id not in filt:
+            filt.append(n.value.id)
+        if isinstance(n, ast.Call) and isinstance(n.func, ast.Name) and n.func.id == SUBMODULES and len(n.args) == 2 and isinstance(n.args[1], ast.Name) and n.args[1].id in params and n.args[1].id not in filt:
+            filt.append(n.args[1].id)
+    # annotations decide for parameters the body does not use in a telling way (only parameters that carry module filters)
+    for a in m.fi.params:
+        if a.arg in coll or a.arg in filt or a.arg == m.graph or a.annotation is None:
+            continue
+        t = norm(a.annotation)
+        if "ModuleFilter" not in t:
+            continue
+        if "[" in t:
+            coll.append(a.arg)
+        else:
+            filt.append(a.arg)
+    m.collection_params = [p for p in params if p in coll and p not in filt]
+    m.filter_params = [p for p in params if p in filt]
+
+
+def _subject_object(m: SearchModel) -> None:
+    if m.role == "other":
+        m.subject_param = m.filter_params[0] if len(m.filter_params) == 1 else None
+        m.object_param = m.collection_params[0] if len(m.collection_params) == 1 else None
+    elif m.role == "explicit":
+        seeds = [p for p in m.filter_params if any(s == f"{p}.{NODE_ATTR}" or s == p for s in m.worklist_sources)]
+        if len(seeds) == 1:
+            m.subject_param = seeds[0]
+            rest = [p for p in m.filter_params if p != seeds[0]]
+            m.object_param = rest[0] if len(rest) == 1 else None
+    else:
+        m.subject_param = m.filter_params[0] if len(m.filter_params) == 1 else None
+
+
+def search_functions(repo: Repo) -> list[FuncInfo]:
+    """Public module-level functions of the search module (private helpers are reached through the inline views)."""
+    mod = repo.module(SEARCHES)
+    return [f for f in mod.all_funcs if f.cls is None and f.outer is None and not isinstance(f.node, ast.Lambda) and not f.name.startswith("_")]
+
+
 def models(repo: Repo) -> list[SearchModel]:
+    cache = repo.__dict__.setdefault("_search_models", None)
+    if cache is not None:
+        return cache
     out = []
-    for fi in repo.module(SEARCHES).all_funcs:
+    covered: set[str] = set()
+    for fi in search_functions(repo):
         m = build(repo, fi)
         if m is not None:
             out.append(m)
-    if len(out) < 4:
-        raise AnalysisError(f"only {len(out)} graph searches found in {SEARCHES} (expected the explicit search, two 'other' searches and the sub-module search)")
+            covered |= set(getattr(m.fi, "inlined", []))
+    covered |= {m.base.fq for m in out}
+    # a private function that walks the graph but could not be substituted into a public search is outside the model
+    for f in repo.module(SEARCHES).all_funcs:
+        if f.fq not in covered and f.cls is None and not isinstance(f.node, ast.Lambda) and f.outer is None and _expansions(f.node) and f.name.startswith("_"):
+            raise AnalysisError(f"{f.fq}: expands graph neighbours but is not substitutable into a public search function (generator, recursion or unresolved call): search idiom not modelled")
+    roles = sorted((m.role, m.direction) for m in out)
+    need = [("explicit", "succ"), ("other", "pred"), ("other", "succ"), ("submodules", "succ")]
+    missing = [r for r in need if r not in roles]
+    if missing:
+        raise AnalysisError(f"graph searches in {SEARCHES}: found {roles}, missing {missing} (expected the explicit search, the forward and the backward 'other' search and the sub-module search)")
+    repo.__dict__["_search_models"] = out
     return out
 
 
+# --------------------------------------------------------------------------- queries used by the rules
+
+
 def record_pair(model: SearchModel, ev: Event) -> tuple[str, str] | None:
-    """(first, second) variable of a recorded pair `tuple(to_modules([a, b]))` / `(a, b)`."""
-    e = ev.call.args[0] if ev.call.args else None
-    for n in ast.walk(e) if e is not None else []:
-        if isinstance(n, (ast.List, ast.Tuple)) and len(n.elts) == 2 and all(isinstance(x, ast.Name) for x in n.elts):
-            return n.elts[0].id, n.elts[1].id
+    """(first, second) node variable of a recorded pair: the first two-element list / tuple whose elements each mention exactly
+    one of the current node and the neighbour (`tuple(to_modules([a, b]))`, `(Module(identifier=a), Module(identifier=b))`)."""
+    e = ev.elt if ev.elt is not None else (ev.call.args[0] if isinstance(ev.call, ast.Call) and ev.call.args else None)
+    if e is None:
+        return None
+    nv = ev.nvar or model.neighbour_var
+    want = {model.popped, nv}
+    todo = [e]
+    while todo:
+        n = todo.pop(0)
+        if isinstance(n, (ast.List, ast.Tuple)) and len(n.elts) == 2:
+            ms = []
+            for x in n.elts:
+                names = {y.id for y in ast.walk(x) if isinstance(y, ast.Name) and isinstance(y.ctx, ast.Load)} & want
+                ms.append(next(iter(names)) if len(names) == 1 else None)
+            if ms[0] and ms[1] and ms[0] != ms[1]:
+                return ms[0], ms[1]
+        if isinstance(n, ast.Lambda):
+            continue
+        todo.extend(ast.iter_child_nodes(n))
     return None
+
+
+def opaque_set(m: SearchModel, name: str) -> bool:
+    """The model cannot see how the node set `name` is made (a parameter, or the result of a call it cannot look into); a set
+    built from literals, comprehensions or known constructors is transparent - and then known not to be a sub-tree set."""
+    if not name.isidentifier() or name in m.fi.param_names:
+        return True
+    vals = []
+    for n in ast.walk(m.fi.node):
+        if isinstance(n, ast.Assign) and any(isinstance(t, ast.Name) and t.id == name for t in n.targets):
+            vals.append(n.value)
+        elif isinstance(n, ast.AnnAssign) and isinstance(n.target, ast.Name) and n.target.id == name and n.value is not None:
+            vals.append(n.value)
+    if not vals:
+        return True
+    for v in vals:
+        for c in ast.walk(v):
+            if isinstance(c, ast.Call):
+                if isinstance(c.func, ast.Name) and c.func.id in (_WRAPPERS | {SUBMODULES, "dict", "len", "map", "filter", "get_node"}):
+                    continue
+                if isinstance(c.func, ast.Attribute) and c.func.attr in ("copy", "union", "difference", "intersection", "keys", "values", "items"):
+                    continue
+                return True
+    return False
 
 
 def membership(var: str, setvar: str) -> Formula:
